@@ -154,7 +154,7 @@ pub fn build(t: &TreeSpec) -> Memfs {
     // flavour: non-default modes / owners on some entries
     if t.flavour & 1 == 1 {
         // (nested directories get group/other write bits: what the umask would take away from a plain mkdir)
-        for (p, dm, fm) in [("/a", 0o700, 0o604), ("/b/b", 0o777, 0o666), ("/a/a", 0o775, 0o604)] {
+        for (p, dm, fm) in [("/a", 0o1750, 0o604), ("/b/b", 0o777, 0o666), ("/a/a", 0o775, 0o604)] {
             if m.is_dir(p) {
                 let _ = m.chmod_b(p).and_then(|b| b.all(dm).no_recurse().exec());
             } else if m.is_file(p) {
@@ -601,6 +601,41 @@ pub fn run(c: &Ctx) {
     });
     if den == 1 {
         c.set_exhaustive(true);
+    }
+    // the same Copier executed twice (exec takes &self), on both backends with std::fs / the dump as observers:
+    // the second run meets the tree the first one left (the destination exists now: copy-into), not a decision
+    // remembered from when the builder was made
+    {
+        let sb = crate::sandbox::root().join("c09-twice");
+        let base = sb.to_str().unwrap().to_string();
+        let mut views: Vec<Vec<String>> = vec![];
+        for stdfs in [false, true] {
+            let v = if stdfs { Vfs::stdfs() } else { Vfs::memfs() };
+            let _ = v.remove_all(&base);
+            let _ = v.mkdir_p(format!("{}/src/sub", base));
+            let _ = v.write_all(format!("{}/src/f", base), b"f");
+            let _ = v.write_all(format!("{}/file", base), b"single");
+            let mut seen = vec![];
+            if let Ok(cp) = v.copy_b(format!("{}/src", base), format!("{}/dst", base)) {
+                seen.push(format!("{:?}", cp.exec().is_ok()));
+                seen.push(format!("{:?}", cp.exec().is_ok()));
+            }
+            // a builder made while the destination is missing, run after it became a directory
+            if let Ok(cp) = v.copy_b(format!("{}/file", base), format!("{}/later", base)) {
+                let _ = v.mkdir_p(format!("{}/later", base));
+                seen.push(format!("{:?}", cp.exec().is_ok()));
+            }
+            let mut paths: Vec<String> = v.all_paths(&base).unwrap_or_default().iter().map(|p| p.to_string_lossy().replace(&base, "")).collect();
+            paths.sort();
+            seen.extend(paths);
+            views.push(seen);
+            let _ = v.remove_all(&base);
+        }
+        c.eval(1);
+        c.nontrivial(fp(&"copier-twice"));
+        c.class("copier-executed-twice:stdfs-vs-memfs");
+        let res = if views[0] == views[1] { Ok(()) } else { Err(Failure::new("copy_b|exec-twice-or-late|backends-differ", format!("results and tree: Memfs {:?} Stdfs {:?}", views[0], views[1]))) };
+        c.judge("xdev", &json!("twice"), res);
     }
     // move_p across a mount point (the sandbox is on tmpfs; the other side is the first of a few scratch locations that
     // lives on another device): rename cannot do it, so whatever the backend does instead still has to be a
